@@ -5,6 +5,7 @@ mod dbx;
 mod enc;
 mod fault;
 mod hist;
+mod mbt;
 mod search;
 mod types;
 use vcore::Args;
@@ -19,6 +20,7 @@ fn main() {
         "types" => types::run(&args),
         "pathfam" => search::path_family(&args),
         "fault" => fault::run(&args),
+        "mbt" => mbt::run(&args),
         other => {
             eprintln!("unknown subcommand {other:?}");
             std::process::exit(2);
